@@ -96,3 +96,62 @@ prop('C17',
      'rand31_r and the successor, the stored state and the range are compared with 64-bit arithmetic; the thorough '
      'tier additionally walks the complete orbit of seed 1 and observes the period 2^31-2 directly.',
      level_note='Trusts 64-bit modular arithmetic as the reference. Quick tier observes the first 2^28 orbit steps only.')
+
+# ----------------------------------------------------------------------- C20
+MLOG = [R + 'mlog.c'] + UTIL
+prop('C20',
+     'hist: random interleavings of mlog bursts (counts landing within 3 of every multiple of 256 up to 5x256), '
+     'mlog_nice, mlog_clear and reads, every mlog_get_line(k) for k in 0..255 plus 12 out-of-range k and mlog_dump '
+     'compared with the model after every operation; wraphook: counter placed 0..600 below 0x7fffffff with '
+     'mlog_verif_set_count after a real prefill, then logged across the fold; wrapreal (thorough): 2^31+1000 real '
+     'mlog calls. Non-trivial = history that passes 256 messages or makes mlog_nice refuse, or crosses the fold; '
+     'distinct by (final count, flags, case) signature.',
+     [Stage('hist', ['harness/mlog.c'], MLOG, preset='asan', nproc=16,
+            args={'quick': ['--extra', 'hist'], 'thorough': ['--extra', 'hist']},
+            needs_min={'get_line_comparisons': 100000, 'histories_passing_256_or_refusing_nice': 100}),
+      Stage('wraphook', ['harness/mlog.c'], MLOG, preset='asan', nproc=16,
+            args={'quick': ['--extra', 'wraphook'], 'thorough': ['--extra', 'wraphook']},
+            needs_min={'histories_crossing_counter_fold(hook)': 50}),
+      Stage('wrapreal', ['harness/mlog.c'], MLOG, preset='O2', nproc=1, tiers=('thorough',),
+            args={'thorough': ['--extra', 'wrapreal']},
+            needs_min={'messages_really_logged': 1 << 31})],
+     assumptions=['snprintf with the same format and arguments is the expected text',
+                  'quick tier reaches the counter fold through the guarded hook mlog_verif_set_count(); the thorough '
+                  'tier also reaches it by really logging 2^31 messages'],
+     engine='E1', technique='runtime monitoring: lock-step reference model over generated histories, ASan+UBSan; '
+     'counter fold reached by hook (quick) and by 2^31 real calls (thorough)',
+     level_text='Exploration. Generated histories of mlog/mlog_nice/mlog_clear/reads are executed on the real mlog.c in '
+     'lock-step with a ring model; all 256 line reads, out-of-range reads and the dump are compared after every '
+     'operation, at counts clustered on multiples of 256 and on both sides of the 2^31 counter fold.',
+     level_note='Format strings are drawn from a fixed pool of 8 (0-3 arguments, one with a string argument). '
+     'The hook only writes the counter; slot contents always come from real mlog calls.')
+
+# ----------------------------------------------------------------------- C18
+HEX = [R + 'hex.c'] + UTIL
+prop('C18',
+     'rt: byte arrays of every length 0..99, lengths within 2 of multiples of 16 up to 4096 and random lengths, four '
+     'value styles, dumped with hex_dump_to_file and parsed back; fuzz: random strings over hex digits, x, colon, '
+     'blanks, newlines and arbitrary bytes (four flavours); struct: texts rendered from known bytes with optional 0x, '
+     'mixed case, blanks/tabs/CR, blank lines and an address prefix on every line or none. Non-trivial = multi-line '
+     'dump, or string ending inside a pair / after 0x / multi-line with a colon, or multi-line structured text with '
+     'prefix; distinct by content hash.',
+     [Stage('rt', ['harness/hex.c'], HEX, preset='asan', nproc=8,
+            args={'quick': ['--extra', 'rt'], 'thorough': ['--extra', 'rt']}, needs_min={'round_trips': 1000}),
+      Stage('fuzz', ['harness/hex.c'], HEX, preset='asan', nproc=16,
+            args={'quick': ['--extra', 'fuzz'], 'thorough': ['--extra', 'fuzz']},
+            needs_min={'fuzz_strings_ending_after_0x': 10, 'fuzz_strings_yielding_bytes': 1000}),
+      Stage('struct', ['harness/hex.c'], HEX, preset='asan', nproc=16,
+            args={'quick': ['--extra', 'struct'], 'thorough': ['--extra', 'struct']},
+            needs_min={'structured_texts_multiline_with_prefix': 1000}),
+      Stage('fuzz-clang', ['harness/hex.c'], HEX, preset='asan', cc='clang', nproc=16, tiers=('thorough',),
+            args={'thorough': ['--extra', 'fuzz', '--cases', '4000000']})],
+     assumptions=['an address prefix is used on every line of a text or on none (the parser looks for the next colon '
+                  'anywhere in the remaining text)',
+                  'input strings live in exactly-sized heap blocks, so a read past the NUL is an ASan report'],
+     engine='E1', technique='runtime monitoring: round-trip and rendered-text oracles plus protocol monitor '
+     '(range, termination bound, sticky end) under ASan+UBSan on exactly-sized heap strings',
+     level_text='Exploration. Dumps of generated byte arrays are parsed back and compared; arbitrary and structured '
+     'texts are parsed under a protocol monitor (values in -1..255, -1 within strlen/2+2 calls and sticky, resume '
+     'pointer inside the string) with ASan watching every read.',
+     level_note='Sampled input space; ASan red zones see only adjacent over-reads (strings are exactly sized so the '
+     'first byte past the NUL is a red zone).')
